@@ -294,6 +294,10 @@ def _history(job):
     rng = random.Random(job['seed'])
     cfg = {'starting_balance': 100000, 'fee': rng.choice([0, 0.001]), 'type': 'futures',
            'futures_leverage': rng.choice([1, 5]), 'futures_leverage_mode': 'cross'}
+    if job['pattern'] == 'wipeout':
+        # a leveraged cross-margin account (no forced liquidation there) whose losses exceed the whole wallet
+        cfg = {'starting_balance': 1000, 'fee': rng.choice([0, 0.0005]), 'type': 'futures', 'futures_leverage': 10,
+               'futures_leverage_mode': 'cross'}
     script = {'seed': 1, 'p_enter': 0.0, 'sides': 'both', 'observe': 'light', 'exits_in': 'none'}
     sym = 'BTC-USDT'
     TR.begin(keep_events=True, snapshots=True)
@@ -303,7 +307,22 @@ def _history(job):
     try:
         # emit a first 'hook' so that the starting balance is known
         st._observe('before')
-        for cyc in range(rng.randint(1, 4)):
+        if job['pattern'] == 'wipeout':
+            side = rng.choice(['buy', 'sell'])
+            opp = 'sell' if side == 'buy' else 'buy'
+            sg = 1 if side == 'buy' else -1
+            q, p = float(rng.choice([80, 90, 95])), 100.0
+            o = w.submit(sym, side, 'MARKET', q, p, False)
+            w.execute(o)
+            hist.append(('open', side, q, p))
+            o = w.submit(sym, opp, 'STOP', round(q / 3, 2), p * (1 - sg * 0.06), True)
+            w.execute(o)
+            rest = abs(w.pos[sym].qty)
+            o = w.submit(sym, opp, 'MARKET', rest, p * (1 - sg * rng.choice([0.15, 0.2])), True)
+            w.execute(o)
+            hist.append(('wipeout_exits',))
+            w.tick()
+        for cyc in range(rng.randint(1, 4) if job['pattern'] != 'wipeout' else 0):
             side = rng.choice(['buy', 'sell'])
             opp = 'sell' if side == 'buy' else 'buy'
             q = round(rng.uniform(0.5, 3), 2)
@@ -392,7 +411,7 @@ def make_jobs(tier, seed):
     rng = random.Random(60000 + seed)
     jobs = [{'kind': 'session', 'seed': rng.randrange(1 << 30), 'i': i} for i in range(260 if tier == 'quick' else 14000)]
     n = 600 if tier == 'quick' else 80000
-    subs = [{'seed': rng.randrange(1 << 30), 'i': i, 'pattern': ['plain', 'oversize', 'flip', 'increase', 'twin'][i % 5]}
+    subs = [{'seed': rng.randrange(1 << 30), 'i': i, 'pattern': ['plain', 'oversize', 'flip', 'increase', 'twin', 'wipeout'][i % 6]}
             for i in range(n)]
     jobs += [{'kind': 'batch', 'batch': subs[i:i + 25]} for i in range(0, n, 25)]
     return jobs
